@@ -26,4 +26,24 @@ def vHat (d : List Rat) (h : Nat) : Rat :=
 def hlnFactor (n h : Nat) : Rat :=
   (((n : Int) : Rat) + 1 - 2 * ((h : Int) : Rat) + ((h : Int) : Rat) * (((h : Int) : Rat) - 1) / ((n : Int) : Rat)) / ((n : Int) : Rat)
 
+/-! Hering & Genton (2011): spectral density at frequency 0 from the fitted exponential covariance model
+    C(k) = σ² exp(−3k/θ) = σ² ρ^k with ρ = exp(−3/θ) (`exp` is uninterpreted: the harness passes ρ),
+
+      f̂(0) = C(0) + 2 Σ_{k=1}^{n−1} C(k)      over ALL lags 0 … n−1 of the (NaN-free) series of length n,
+      S_HG  = d̄ / sqrt(f̂(0) / n).
+
+    The parameters (σ, θ) come from scipy's least-squares fit, which is NOT modelled: these definitions say what the
+    statistic is GIVEN the parameters. -/
+
+/-- C(0) + 2 Σ_{k=1}^{m−1} C(k): the two-sided sum of the model autocovariances over the lags 0 … m−1 -/
+def hgDensityLags (sigmaSq rho : Rat) (m : Nat) : Rat :=
+  sigmaSq * (1 + 2 * ((List.range (m - 1)).map fun j => rho ^ (j + 1)).sum)
+
+/-- the HG density estimate of a series of length `n`: every lag 0 … n−1 -/
+def hgDensity (sigmaSq rho : Rat) (n : Nat) : Rat := hgDensityLags sigmaSq rho n
+
+/-- the square of the HG statistic of the series `d` (its sign is the sign of the mean): d̄² · n / f̂(0) -/
+def hgStatSq (d : List Rat) (sigmaSq rho : Rat) : Rat :=
+  mean d ^ 2 * (d.length : Int) / hgDensity sigmaSq rho d.length
+
 end SV.Spec.DM
